@@ -3,6 +3,7 @@
 #pragma once
 #include <trompeloeil.hpp>
 
+#include <atomic>
 #include <memory>
 #include <stdexcept>
 #include <string>
@@ -18,7 +19,7 @@ struct Tracked {
   Tracked(const Tracked& o) : v(o.v) { ++copies; ++live; }
   Tracked(Tracked&& o) noexcept : v(o.v) { ++moves; ++live; }
   ~Tracked() { --live; }
-  static long copies, moves, live;
+  static std::atomic<long> copies, moves, live;
 };
 
 template <bool Movable>
@@ -60,7 +61,15 @@ const ShapeFns& shape_fns(int id);
 
 template <class... T> inline void ignore(T const&...) {}
 
-// ---- clause hooks (defined in exec.cpp): log, yield point, fault site ----
+// where the clause hooks deliver to: the Mode H executor, or a Mode T task
+struct ClauseSink {
+  virtual void clause_log(char kind, int id, int k, long v, const void* a1, const void* a2) = 0;
+  virtual void clause_point() = 0;
+  virtual ~ClauseSink() = default;
+};
+extern thread_local ClauseSink* t_sink;
+
+// ---- clause hooks (defined in exec_a.cpp): log, yield point, fault site ----
 bool w(int id, int k, bool cond);
 void se(int id, int k, int snap, const void* a1, const void* a2 = nullptr);
 int ret(int id, int snap, const void* a1, const void* a2 = nullptr);
